@@ -17,8 +17,9 @@ import (
 )
 
 type bytesModel struct {
-	Len  uint64            `json:"len"`
-	Data map[string]uint64 `json:"data"`
+	Default uint64            `json:"default"`
+	Len     uint64            `json:"len"`
+	Data    map[string]uint64 `json:"data"`
 }
 
 type replayFile struct {
@@ -108,6 +109,11 @@ func Bytes(name string, n int) []byte {
 	seq++
 	b := make([]byte, n)
 	if m := replay.Bytes[key]; m != nil {
+		if m.Default != 0 {
+			for i := range b {
+				b[i] = byte(m.Default)
+			}
+		}
 		for k, v := range m.Data {
 			i, _ := strconv.Atoi(k)
 			if i >= 0 && i < n {
@@ -189,7 +195,17 @@ func RunReplay(f func()) (outcome string) {
 	defer func() {
 		if r := recover(); r != nil {
 			if _, ok := r.(assumeFailed); ok {
+				// the model only fixes the inputs up to the violated assertion; an
+				// assumption about later inputs failing after that is expected
+				if len(Failures) > 0 {
+					outcome = "ASSERT-FAILED: " + strings.Join(Failures, " | ")
+					return
+				}
 				outcome = "ASSUME-FAILED"
+				return
+			}
+			if len(Failures) > 0 {
+				outcome = "ASSERT-FAILED: " + strings.Join(Failures, " | ") + fmt.Sprintf(" (then panic: %v)", r)
 				return
 			}
 			outcome = fmt.Sprintf("PANIC: %v", r)
